@@ -28,7 +28,7 @@ use lightning_signer::bitcoin::secp256k1::ecdsa::Signature;
 use lightning_signer::bitcoin::BlockHash;
 use lightning_signer::util::test_utils::key::make_test_counterparty_points;
 use lightning_signer::util::test_utils::{
-    channel_commitment, counterparty_sign_holder_commitment, make_test_channel_setup, make_test_counterparty_keys,
+    build_tx_scripts, channel_commitment, counterparty_sign_holder_commitment, make_test_channel_setup, make_test_counterparty_keys,
     TestChannelContext, TestNodeContext,
 };
 use vls_protocol::model::{self, BitcoinSignature, PubKey};
@@ -986,16 +986,67 @@ impl Adv {
         }
     }
 
-    /// counterparty-signed ValidateCommitmentTx2 for holder commitment n
-    fn validate_msg(&self, n: u64) -> Option<Message> {
+    /// counterparty-signed ValidateCommitmentTx2 for holder commitment n, or (phase1) the
+    /// ValidateCommitmentTx message that carries the transaction itself and the witness scripts in a PSBT
+    fn validate_msg(&self, n: u64, phase1: bool) -> Option<Message> {
         let (to_h, to_c) = if n == 0 { (VALUE - 1000, 0) } else { (1_000_000, VALUE - 20_000 - 1_000_000) };
         let nctx = TestNodeContext { node: self.node.clone(), secp_ctx: Secp256k1::signing_only() };
         let r = catch_unwind(AssertUnwindSafe(|| {
             let mut ctx = channel_commitment(&nctx, &self.cctx, n, 1100, to_h, to_c, vec![], vec![]);
-            counterparty_sign_holder_commitment(&nctx, &self.cctx, &mut ctx)
+            let sigs = counterparty_sign_holder_commitment(&nctx, &self.cctx, &mut ctx);
+            (sigs, ctx.tx.as_ref().map(|t| t.trust().built_transaction().transaction.clone()))
         }));
-        let (sig, hs) = r.ok()?;
-        Some(Message::ValidateCommitmentTx2(msgs::ValidateCommitmentTx2 {
+        let ((sig, hs), tx) = r.ok()?;
+        if phase1 {
+            let tx = tx?;
+            let ws: Vec<Vec<u8>> = self
+                .node
+                .with_channel(&self.id, |chan| {
+                    let cp = chan.make_channel_parameters();
+                    let params = cp.as_holder_broadcastable();
+                    let pt = chan.get_per_commitment_point(n)?;
+                    let hp = chan.keys.pubkeys();
+                    let cpp = chan.counterparty_pubkeys();
+                    let keys = lightning_signer::lightning::ln::chan_utils::TxCreationKeys::derive_new(
+                        &Secp256k1::new(),
+                        &pt,
+                        &hp.delayed_payment_basepoint,
+                        &hp.htlc_basepoint,
+                        &cpp.revocation_basepoint,
+                        &cpp.htlc_basepoint,
+                    );
+                    let scripts = build_tx_scripts(
+                        &keys,
+                        to_h,
+                        to_c,
+                        &vec![],
+                        &params,
+                        &chan.keys.pubkeys().funding_pubkey,
+                        &chan.setup.counterparty_points.funding_pubkey,
+                    )
+                    .expect("scripts");
+                    Ok(scripts.iter().map(|s| s.as_bytes().to_vec()).collect::<Vec<_>>())
+                })
+                .ok()?;
+            let mut psbt = lightning_signer::bitcoin::psbt::Psbt::from_unsigned_tx(tx.clone()).ok()?;
+            for (o, w) in psbt.outputs.iter_mut().zip(ws.iter()) {
+                if !w.is_empty() {
+                    o.witness_script = Some(lightning_signer::bitcoin::ScriptBuf::from(w.clone()));
+                }
+            }
+            let bytes = msgs::ValidateCommitmentTx {
+                tx: vls_protocol::serde_bolt::WithSize(tx),
+                psbt: vls_protocol::serde_bolt::WithSize(psbt.into()),
+                htlcs: Array(vec![]),
+                commitment_number: n,
+                feerate: 1100,
+                signature: to_bsig(&sig),
+                htlc_signatures: Array(hs.iter().map(to_bsig).collect()),
+            }
+            .as_vec();
+            return msgs::from_vec(bytes).ok();
+        }
+        let bytes = msgs::ValidateCommitmentTx2 {
             commitment_number: n,
             feerate: 1100,
             to_local_value_sat: to_h,
@@ -1003,16 +1054,25 @@ impl Adv {
             htlcs: Array(vec![]),
             signature: to_bsig(&sig),
             htlc_signatures: Array(hs.iter().map(to_bsig).collect()),
-        }))
+        }
+        .as_vec();
+        msgs::from_vec(bytes).ok()
     }
 
     /// ValidateCommitmentTx2{n}: below protocol 5 it revokes n-1 in the same step
     fn validate(&mut self, n: u64, tag: &str) -> bool {
-        let msg = match self.validate_msg(n) {
+        self.validate_as(n, tag, false)
+    }
+
+    /// The reply announces `next_per_commitment_point`: by the protocol the point of commitment n + 1
+    /// (and, below protocol 5, the secret of n - 1), whatever state the channel is in -- also on a
+    /// retry of the same request before or after the revocation.
+    fn validate_as(&mut self, n: u64, tag: &str, phase1: bool) -> bool {
+        let msg = match self.validate_msg(n, phase1) {
             Some(m) => m,
             None => return false,
         };
-        self.history.push(format!("{}validate:{}", tag, n));
+        self.history.push(format!("{}validate{}:{}", tag, if phase1 { "-phase1" } else { "" }, n));
         let r = catch_unwind(AssertUnwindSafe(|| self.handler.handle(msg).map(|r| r.as_vec())));
         match r {
             Ok(Ok(bytes)) => {
@@ -1227,6 +1287,7 @@ fn adv(args: &Args) {
     let mut rng = Rng::new(args.seed ^ 0x616476);
     let mut answers_total: BTreeMap<String, u64> = BTreeMap::new();
     let (mut n_refused, mut n_restart, mut max_next, mut n_replays) = (0u64, 0u64, 0u64, 0u64);
+    let mut n_retries = 0u64;
     for case in 0..args.n {
         let seed = rng.bytes32();
         let style = if case % 2 == 0 { KeyDerivationStyle::Native } else { KeyDerivationStyle::Ldk };
@@ -1288,12 +1349,29 @@ fn adv(args: &Args) {
             if !a.validate(n, "") {
                 break;
             }
+            // the retries the signer accepts: the same request again before the revocation ...
+            if n >= 1 && rng.chance(1, 2) {
+                let p1 = rng.chance(1, 2);
+                if a.validate_as(n, "retry-before-revoke-", p1) {
+                    n_retries += 1;
+                }
+            }
             if proto >= 5 && n >= 1 {
                 a.revoke_msg(n - 1, "");
+            }
+            // ... and after it (the channel has moved on: next_holder_commit_num is n + 1 now)
+            if n >= 1 {
+                let p1 = (n + case as u64) % 2 == 0;
+                if a.validate_as(n, "retry-after-revoke-", p1) {
+                    n_retries += 1;
+                }
             }
             if rng.chance(1, 3) {
                 a.restart();
                 n_restart += 1;
+                if n >= 1 && a.validate_as(n, "retry-after-restart-", rng.chance(1, 2)) {
+                    n_retries += 1;
+                }
             }
             if n >= 2 || rng.chance(1, 2) {
                 a.probe(&mut rng);
@@ -1394,7 +1472,8 @@ fn adv(args: &Args) {
     emit(
         "STATS",
         json!({"kind": "keys-adv", "cases": args.n, "answers_checked": answers_total, "refused_or_out_of_range": n_refused,
-               "restarts": n_restart, "max_next_holder_commit_num": max_next, "replayed_requests": n_replays}),
+               "restarts": n_restart, "max_next_holder_commit_num": max_next, "replayed_requests": n_replays,
+               "accepted_validate_retries": n_retries}),
     );
 }
 
